@@ -91,5 +91,17 @@ _ADD = {
  "C12": " Also: the Kleene validity/value closures are decided exactly by their 16-row truth tables (computed from MIR over a finite abstract domain), and try_for_each_valid_idx receives the offset of the NullBuffer whose bitmap it is given.",
  "C13": " Also: Utf8 and Utf8View entry points of each text cast delegate to the same generic implementations with the same type arguments (7 pairs), and the 26 DecimalCast conversions contain no narrowing `as`.",
 }
+_ADD2 = {
+ "C01": " builder-finish-resets: finish(&mut self) of 17 array builders writes every field the append methods write (or takes the whole builder).",
+ "C02": " null-test-relative-to-start: the 15 validity tests in the range comparators of arrow_data::equal are made at start + i or on a null buffer sliced by start.",
+ "C11": " descending-reaches-child-bytes (List/Map/RunEndEncoded/Union encoders let the column's SortOptions reach every write of child bytes, 11 sites) and union-type-id-translated (a type id indexes only the 128-entry translation table).",
+ "C13": " decimal-bound-beliefs (12 comparisons against the per-precision MIN/MAX tables agree that the bound is representable, strict and safe mode) and narrowing-after-reduction (15 narrowing `as` casts in arrow-cast act on reduced values, never on raw kernel inputs).",
+ "C14": " tolerated-error-is-atomic: where a decoder turns a callee's error into 'need more input' the callee is failure-atomic or rolled back (one recorded finding: Avro single-object decoder).",
+}
+_ALL = " influence-kept: for every named intermediate value of every function in the crates this property is anchored in, each parameter (with field path) that could influence it on the reference tree still can, while function, variable and parameter exist (ratchet against dropped operands)."
 for _k, _v in _ADD.items():
     CLAIMED[_k]["text"] = CLAIMED[_k]["text"].rstrip() + _v
+for _k, _v in _ADD2.items():
+    CLAIMED[_k]["text"] = CLAIMED[_k]["text"].rstrip() + _v
+for _k in CLAIMED:
+    CLAIMED[_k]["text"] = CLAIMED[_k]["text"].rstrip() + _ALL
